@@ -10,6 +10,7 @@ func init() {
 			c.Rule("C13.R7", "gateway/VLAN come from the pool whose ranges contain the ip, also after a reload", 4)
 			ruleIPInfoFromPool(c, "C13.R7")
 			ruleReloadPoolMatch(c, "C13.R7")
+			ruleOnlyUnallocatedCreated(c, "C13.R7")
 			c.Rule("C13.R8", "plugin decoder: j-th vlan from the j-th IPInfo", 1)
 			ruleDecoderPerIP(c, "C13.R8")
 			c.Rule("C13.R6", "reported ips are the lookup for the full request, in its order", 3)
